@@ -4,6 +4,7 @@ import (
 	"fmt"
 	"sort"
 	"strings"
+	"sync"
 
 	"perkeep.org/pkg/blob"
 	"perkeep.org/pkg/index"
@@ -20,6 +21,7 @@ type inst struct {
 	x    *world.Idx
 	corp *index.Corpus
 	src  *hs.Mem
+	pk   *parker // scheduling of the re-indexing goroutines (instances that receive blobs)
 }
 
 func (in *inst) close() {
@@ -30,7 +32,9 @@ func (in *inst) close() {
 
 // openInst opens index.New + KeepInMemory over st (empty store: a fresh
 // server; store with rows: a restart).
-func openInst(st *store, src *hs.Mem) (*inst, error) {
+func openInst(st *store, src *hs.Mem, set *Set) (*inst, error) {
+	pk := newParker(set)
+	src.Hook = pk.hook
 	x, err := world.NewIdx(st.kv, src)
 	if err != nil {
 		return nil, fmt.Errorf("index.New: %v", err)
@@ -39,7 +43,17 @@ func openInst(st *store, src *hs.Mem) (*inst, error) {
 	if err != nil {
 		return nil, fmt.Errorf("KeepInMemory: %v", err)
 	}
-	return &inst{st: st, x: x, corp: corp, src: src}, nil
+	return &inst{st: st, x: x, corp: corp, src: src, pk: pk}, nil
+}
+
+// feedAwait delivers one blob and lets the out-of-order re-indexing settle.
+func feedAwait(in *inst, b hs.Blob, ch *chooser) error {
+	if err := in.x.Feed(b); err != nil {
+		in.pk.settle(in.x.Index, ch)
+		return err
+	}
+	in.pk.settle(in.x.Index, ch)
+	return nil
 }
 
 // liveRun is the running server of one history.
@@ -50,47 +64,40 @@ type liveRun struct {
 	set  *Set
 
 	delivered   map[blob.Ref]int
-	everPartial map[blob.Ref]bool // blobs that were stored partially (have row without "|indexed") at some point
-	sawPending  bool              // at some earlier point a blob waited for a dependency
+	mu          sync.Mutex
+	everPartial map[string]bool // blobs that were stored partially (have row without "|indexed") at some point
+	sawPending  bool            // at some earlier point a blob waited for a dependency
 	redelivered bool
 }
 
 func newLive(kind *kvKind, u *universe) (*liveRun, error) {
-	st, err := kind.open("")
+	l := &liveRun{u: u, kind: kind, set: u.set, delivered: map[blob.Ref]int{}, everPartial: map[string]bool{}}
+	st, err := kind.open("", func(k, v string) {
+		if strings.HasPrefix(k, "have:") && !strings.HasSuffix(v, "|indexed") {
+			l.mu.Lock()
+			l.everPartial[k[len("have:"):]] = true
+			l.mu.Unlock()
+		}
+	})
 	if err != nil {
 		return nil, err
 	}
-	in, err := openInst(st, hs.NewMem("src"))
+	in, err := openInst(st, hs.NewMem("src"), u.set)
 	if err != nil {
 		st.discard()
 		return nil, err
 	}
-	return &liveRun{inst: in, u: u, kind: kind, set: u.set, delivered: map[blob.Ref]int{}, everPartial: map[blob.Ref]bool{}}, nil
+	l.inst = in
+	return l, nil
 }
 
-func feedAwait(in *inst, b hs.Blob) error {
-	if err := in.x.Feed(b); err != nil {
-		return err
-	}
-	in.x.Index.VerifAwaitReindex()
-	return nil
-}
-
-func (l *liveRun) feed(b hs.Blob) error {
+func (l *liveRun) feed(b hs.Blob, ch *chooser) error {
 	if l.delivered[b.Ref] > 0 {
 		l.redelivered = true
 	}
 	l.delivered[b.Ref]++
-	if err := feedAwait(l.inst, b); err != nil {
+	if err := feedAwait(l.inst, b, ch); err != nil {
 		return err
-	}
-	for _, sb := range l.set.Blobs {
-		if l.delivered[sb.Ref] == 0 {
-			continue
-		}
-		if v, err := l.st.kv.Get("have:" + sb.Ref.String()); err == nil && !strings.HasSuffix(v, "|indexed") {
-			l.everPartial[sb.Ref] = true
-		}
 	}
 	if l.pending() {
 		l.sawPending = true
@@ -103,6 +110,12 @@ func (l *liveRun) pending() bool {
 	return n+nb+rr > 0
 }
 
+func (l *liveRun) partials() int {
+	l.mu.Lock()
+	defer l.mu.Unlock()
+	return len(l.everPartial)
+}
+
 // pattern names the arrival pattern of the prefix delivered so far.
 func (l *liveRun) pattern() string {
 	switch {
@@ -110,7 +123,7 @@ func (l *liveRun) pattern() string {
 		return "deps-pending"
 	case l.redelivered:
 		return "redelivery"
-	case l.sawPending || len(l.everPartial) > 0:
+	case l.sawPending || l.partials() > 0:
 		return "after-out-of-order"
 	}
 	return "in-order"
@@ -119,8 +132,8 @@ func (l *liveRun) pattern() string {
 // restart opens a fresh index + corpus over a copy of the live rows in a new
 // store of the same kind; file-backed stores are closed and opened again
 // after the copy, so that the index really reads what is on disk.
-func restart(kind *kvKind, rows sorted.KeyValue, src *hs.Mem, filter func(k, v string) bool, extra map[string]string) (*inst, error) {
-	st, err := kind.open("")
+func restart(kind *kvKind, set *Set, rows sorted.KeyValue, src *hs.Mem, filter func(k, v string) bool, extra map[string]string) (*inst, error) {
+	st, err := kind.open("", nil)
 	if err != nil {
 		return nil, err
 	}
@@ -150,7 +163,7 @@ func restart(kind *kvKind, rows sorted.KeyValue, src *hs.Mem, filter func(k, v s
 			return nil, err
 		}
 	}
-	in, err := openInst(st, src)
+	in, err := openInst(st, src, set)
 	if err != nil {
 		st.discard()
 		return nil, err
@@ -187,9 +200,11 @@ func keyType(k string) string {
 // yet: a delete claim before its target) and have been fully re-indexed since.
 func (l *liveRun) lateBlobs() map[string]bool {
 	late := map[string]bool{}
+	l.mu.Lock()
+	defer l.mu.Unlock()
 	for br := range l.everPartial {
-		if v, err := l.st.kv.Get("have:" + br.String()); err == nil && strings.HasSuffix(v, "|indexed") {
-			late[br.String()] = true
+		if v, err := l.st.kv.Get("have:" + br); err == nil && strings.HasSuffix(v, "|indexed") {
+			late[br] = true
 		}
 	}
 	return late
@@ -246,7 +261,7 @@ var hypotheses = []hypothesis{
 			if len(late) == 0 {
 				return nil, nil
 			}
-			return restart(kvKinds[0], l.st.kv, l.src, func(k, v string) bool {
+			return restart(kvKinds[0], l.set, l.st.kv, hs.NewMem("src"), func(k, v string) bool {
 				switch keyType(k) {
 				case "claim", "deleted":
 					return !late[lastKeyPart(k)]
@@ -264,7 +279,7 @@ var hypotheses = []hypothesis{
 			if len(extra) == 0 {
 				return nil, nil
 			}
-			return restart(kvKinds[0], l.st.kv, l.src, nil, extra)
+			return restart(kvKinds[0], l.set, l.st.kv, hs.NewMem("src"), nil, extra)
 		},
 	},
 }
